@@ -27,7 +27,9 @@ func (s LockState) meet(o LockState) LockState {
 	if o.Top {
 		return s
 	}
-	return LockState{W: s.W & o.W, R: s.R & o.R, V: s.V & o.V}
+	w := s.W & o.W
+	held := (s.W | s.V) & (o.W | o.V)
+	return LockState{W: w, R: s.R & o.R, V: held &^ w}
 }
 
 func (s LockState) eq(o LockState) bool { return s == o }
@@ -64,6 +66,7 @@ type Locks struct {
 	Problems []LockProblem
 	funcs    []*ssa.Function
 	deferred map[*ssa.Function]uint32 // keys with a deferred Unlock in fn
+	delta    map[*ssa.Function]lockDelta
 }
 
 func (l *Locks) bit(k LockKey) uint32 {
@@ -144,7 +147,7 @@ func LockOp(cc *ssa.CallCommon) (op string, key LockKey, ok bool) { return lockO
 // AnalyzeLocks runs the must-held analysis over all module functions.
 func (p *Prog) AnalyzeLocks(cfg LockCfg) *Locks {
 	l := &Locks{p: p, cfg: cfg, keyIdx: map[LockKey]int{}, entry: map[*ssa.Function]LockState{},
-		blockIn: map[*ssa.BasicBlock]LockState{}, exit: map[*ssa.Function]LockState{}, deferred: map[*ssa.Function]uint32{}}
+		blockIn: map[*ssa.BasicBlock]LockState{}, exit: map[*ssa.Function]LockState{}, deferred: map[*ssa.Function]uint32{}, delta: map[*ssa.Function]lockDelta{}}
 	l.funcs = p.AllFuncs()
 	g := p.CallGraph()
 
@@ -246,7 +249,7 @@ func (p *Prog) AnalyzeLocks(cfg LockCfg) *Locks {
 				changed = true
 			}
 		}
-		exitSig := fmt.Sprint(l.exit)
+		exitSig := fmt.Sprint(l.delta)
 		if !changed && iter >= 2 && exitSig == lastExit {
 			break
 		}
@@ -321,14 +324,9 @@ func (l *Locks) transfer(f *ssa.Function, in ssa.Instruction, st LockState, repo
 					contribute(cal, st)
 				}
 				// apply net effect of callee, if known
-				if ex, ok := l.exit[cal]; ok && !ex.Top {
-					en := l.entry[cal]
-					if !en.Top {
-						acqW, relW := ex.W&^en.W, en.W&^ex.W
-						acqR, relR := ex.R&^en.R, en.R&^ex.R
-						st.W = (st.W &^ relW) | acqW
-						st.R = (st.R &^ relR) | acqR
-					}
+				if d, ok := l.delta[cal]; ok {
+					st.W = (st.W &^ d.relW) | d.acqW
+					st.R = (st.R &^ d.relR) | d.acqR
 				}
 			}
 		}
@@ -463,8 +461,12 @@ func (l *Locks) analyzeFunc(f *ssa.Function, contribute func(*ssa.Function, Lock
 	}
 	if !exit.Top {
 		l.exit[f] = exit
+		l.delta[f] = lockDelta{acqW: exit.W &^ en.W, relW: en.W &^ exit.W, acqR: exit.R &^ en.R, relR: en.R &^ exit.R}
 	}
 }
+
+// lockDelta is the net effect of a function on the held set.
+type lockDelta struct{ acqW, relW, acqR, relR uint32 }
 
 // applyDefers applies deferred Lock/Unlock calls of f (all of them: must
 // analysis treats a deferred unlock as releasing, a deferred Lock as
